@@ -7,7 +7,10 @@ D4 declared-key enforcement, D5 strictly sequential loop that aborts on first fa
 D6 slicers map element-wise in order, D7 shorthand table agreement, D8 IO adapters,
 D9 the payload's own context/data reach parameter resolution and the processor,
 D10 accepted context writes/deletes are carried out by every forwarding layer (validation only rejects),
-D11 the generated rename:/delete:/template: processors act whenever the consumed key was resolved.
+D11 the generated rename:/delete:/template: processors act whenever the consumed key was resolved,
+D12 nothing on the resolution / gate / observer / generated-processor path reads process-lifetime state (module-level
+or class-level cells written at run time), except a table looked up by the identity of the objects its entries
+were computed from.
 The D1 first-match chain is decided from the truth table of the guards (sa/props/_chains.py), not from
 the textual order of the `if` statements.
 Rules that look inside a function body analyse its normal form (sa/normal.py: new private helpers inlined)
@@ -911,6 +914,7 @@ def run(repo: Repo, R: Report) -> None:
     _rule_run_inputs(repo, R, nmod)
     _rule_forwarding(repo, R)
     _rule_shorthand_processors(repo, R)
+    _rule_no_process_state(repo, R)
 
 
 # ---------------------------------------------------------------------- D9
@@ -1119,3 +1123,259 @@ def _rule_shorthand_processors(repo: Repo, R: Report) -> None:
     analyse("_context_renamer_factory", 0, [("_notify_context_update", 1), ("_notify_context_deletion", 0)])
     analyse("_context_deleter_factory", 0, [("_notify_context_deletion", 0)])
     analyse("_context_template_factory", None, [("_notify_context_update", 1)])
+
+
+# ---------------------------------------------------------------------- D12
+NODEFACT = "semantiva/pipeline/nodes/_pipeline_node_factory.py"
+CTYPES = "semantiva/context_processors/context_types.py"
+SWEEP = "semantiva/data_processors/parametric_sweep_factory.py"
+COMPONENT = "semantiva/core/semantiva_component.py"
+# every function of these files is part of what a node computes (resolution, gate, observers, generated processors)
+_NODE_PATH_FILES = (NODES, NODEFACT, PAYP, OBS, DPROC, CPROC, CTYPES, SLICE, IOF, CFACT, SWEEP)
+_STATE_EXEMPT = ("semantiva/registry/", "semantiva/logger/", "semantiva/exceptions/")  # name -> class tables, logging
+_SINKS = {"append", "extend", "add", "update", "insert", "appendleft", "discard", "remove", "__setitem__"}
+_EVICT = {"clear", "pop", "popitem"}
+
+
+def _scope_locals(f: ast.AST) -> Set[str]:
+    """Names local to *f* or to a function it is nested in (parameters, stores, imports), `global` ones excluded."""
+    out: Set[str] = set()
+    for fn in [f] + [a for a in ancestors(f) if isinstance(a, FuncNode)]:
+        loc = set(_fn_params(fn))
+        globs: Set[str] = set()
+        for n in walk_no_nested(fn):
+            if isinstance(n, (ast.Global, ast.Nonlocal)):
+                globs |= set(n.names)
+            elif isinstance(n, ast.Name) and isinstance(n.ctx, (ast.Store, ast.Del)):
+                loc.add(n.id)
+            elif isinstance(n, ast.ExceptHandler) and n.name:
+                loc.add(n.name)
+            elif isinstance(n, (ast.Import, ast.ImportFrom)):
+                loc |= {(al.asname or al.name).split(".")[0] for al in n.names}
+            elif isinstance(n, FuncNode + (ast.ClassDef,)) and n is not fn:
+                loc.add(n.name)
+        out |= loc - globs
+    return out
+
+
+def _owner_class(recv: str, f: ast.AST, mod, local: Set[str]) -> Optional[str]:
+    """Class (existing once per process) whose attribute `recv.X` designates inside *f*."""
+    static = {c.name: c for c in ast.walk(mod.tree) if isinstance(c, ast.ClassDef) and not any(isinstance(a, FuncNode) for a in ancestors(c))}
+    if recv in ("cls", "self"):
+        for a in ancestors(f):
+            if isinstance(a, ast.ClassDef):
+                return a.name if static.get(a.name) is a else None
+            if isinstance(a, FuncNode):
+                return None
+        return None
+    return recv if recv in static and recv not in local else None
+
+
+def _cell_occurrences(repo: Repo, mod, f: ast.AST, cells_of) -> List[Tuple[ast.AST, Tuple[str, ...], str, Tuple[ast.AST, str], object]]:
+    """(occurrence, cell key, label, (write site, writer), module owning the cell) for every mention in *f* of a process-lifetime state
+    cell of its module (or of one imported by name from another module of the package)."""
+    cells = cells_of(mod)
+    imported: Dict[str, Tuple[str, object]] = {}
+    for alias, target in mod.imports.items():
+        head, _, nm = target.rpartition(".")
+        origin = repo.by_dotted.get(head)
+        if origin is not None and origin is not mod and nm and ("name", nm) in cells_of(origin):
+            imported[alias] = (nm, origin)
+    if not cells and not imported:
+        return []
+    local = _scope_locals(f)
+    out = []
+    for n in walk_no_nested(f):
+        if isinstance(n, ast.Name) and n.id not in local:
+            if ("name", n.id) in cells:
+                out.append((n, ("name", n.id), n.id, cells[("name", n.id)], mod))
+            elif n.id in imported:
+                nm, origin = imported[n.id]
+                out.append((n, ("name", nm), n.id, cells_of(origin)[("name", nm)], origin))
+        elif isinstance(n, ast.Attribute) and isinstance(n.value, ast.Name):
+            owner = _owner_class(n.value.id, f, mod, local)
+            if owner is not None and ("attr", owner, n.attr) in cells:
+                out.append((n, ("attr", owner, n.attr), f"{owner}.{n.attr}", cells[("attr", owner, n.attr)], mod))
+    return out
+
+
+def _cell_access(n: ast.AST) -> Tuple[str, Optional[ast.AST], Optional[ast.AST]]:
+    """How the occurrence *n* of a state cell is used: ('write', K, V) item store / sink mutator whose result is
+    discarded, ('evict', ..) clear / pop / del, ('lookup', K, V) `C[K]`, `C.get(K)`, `K in C`, `C.setdefault(K, V)`,
+    ('read', ..) anything else (iteration, len, rebinding, aliasing, passing it on)."""
+    par = parent(n)
+    if isinstance(getattr(n, "ctx", None), (ast.Store, ast.Del)):
+        return ("read" if isinstance(par, ast.AugAssign) else "rebind"), None, (par.value if isinstance(par, (ast.Assign, ast.AnnAssign)) else None)
+    if isinstance(par, ast.Subscript) and par.value is n:
+        pp = parent(par)
+        if isinstance(par.ctx, ast.Store):
+            if isinstance(pp, ast.AugAssign):
+                return "read", par.slice, None
+            return "write", par.slice, (pp.value if isinstance(pp, (ast.Assign, ast.AnnAssign)) else None)
+        if isinstance(par.ctx, ast.Del):
+            return "evict", par.slice, None
+        return "lookup", par.slice, None
+    if isinstance(par, ast.Compare) and len(par.ops) == 1 and isinstance(par.ops[0], (ast.In, ast.NotIn)) and par.comparators[0] is n:
+        return "lookup", par.left, None
+    if isinstance(par, ast.Attribute) and par.value is n and isinstance(parent(par), ast.Call) and parent(par).func is par:
+        c = parent(par)
+        plain = not c.keywords and not any(isinstance(a, ast.Starred) for a in c.args)
+        if par.attr in _EVICT and isinstance(parent(c), ast.Expr):
+            return "evict", None, None
+        if par.attr == "get" and plain and 1 <= len(c.args) <= 2:
+            return "lookup", c.args[0], None
+        if par.attr == "setdefault" and plain and len(c.args) == 2:
+            return "lookup", c.args[0], c.args[1]
+        if par.attr in _SINKS and isinstance(parent(c), ast.Expr):
+            return "write", None, None
+    return "read", None, None
+
+
+def _identity_key(g: CFG, k: Optional[ast.AST], use: int, depth: int = 0) -> Optional[Set[str]]:
+    """Parameters whose *objects* (entry values; `type(p)` / `p.__class__` included) make up the key *k*, when the
+    key is nothing but those objects - so two entries coincide only for the same objects; else None
+    (a string / name / id() derived from them can coincide for different objects)."""
+    if k is None or depth > 6:
+        return None
+    vs = _vals(g, k, use)
+    if not vs:
+        return None
+    out: Set[str] = set()
+    for v, u in vs:
+        if isinstance(v, ast.Tuple) and v.elts:
+            for e in v.elts:
+                sub = _identity_key(g, e, u, depth + 1)
+                if sub is None:
+                    return None
+                out |= sub
+            continue
+        if isinstance(v, ast.Call) and isinstance(v.func, ast.Name) and v.func.id == "type" and len(v.args) == 1 and not v.keywords:
+            v = v.args[0]
+        elif isinstance(v, ast.Attribute) and v.attr == "__class__":
+            v = v.value
+        if isinstance(v, ast.Name) and v.id in _fn_params(g.func) and _is_param(g, v, u, v.id):
+            out.add(v.id)
+        else:
+            return None
+    return out
+
+
+def _value_inputs(f: ast.AST, st: ast.AST, v: ast.AST) -> Set[str]:
+    """Names the value *v* stored by statement *st* of *f* is computed from (flow-insensitive closure over the
+    local bindings, plus the tests of the branches / loops the store sits in)."""
+    seen: Set[str] = set()
+    todo: List[ast.AST] = [v]
+    for a in ancestors(st):
+        if a is f:
+            break
+        if isinstance(a, (ast.If, ast.While)):
+            todo.append(a.test)
+        elif isinstance(a, ast.For):
+            todo.append(a.iter)
+    binders: Dict[str, List[ast.AST]] = {}
+    for n in walk_no_nested(f):
+        if isinstance(n, (ast.Assign, ast.AnnAssign, ast.AugAssign)) and n.value is not None:
+            for t in (n.targets if isinstance(n, ast.Assign) else [n.target]):
+                for x in ast.walk(t):
+                    if isinstance(x, ast.Name) and isinstance(x.ctx, ast.Store):
+                        binders.setdefault(x.id, []).append(n.value)
+        elif isinstance(n, ast.NamedExpr) and isinstance(n.target, ast.Name):
+            binders.setdefault(n.target.id, []).append(n.value)
+        elif isinstance(n, (ast.For, ast.comprehension)):
+            for x in ast.walk(n.target):
+                if isinstance(x, ast.Name):
+                    binders.setdefault(x.id, []).append(n.iter)
+        elif isinstance(n, ast.With):
+            for it in n.items:
+                for x in ast.walk(it.optional_vars) if it.optional_vars is not None else []:
+                    if isinstance(x, ast.Name):
+                        binders.setdefault(x.id, []).append(it.context_expr)
+    while todo:
+        e = todo.pop()
+        for x in ast.walk(e):
+            if isinstance(x, ast.Name) and x.id not in seen:
+                seen.add(x.id)
+                todo.extend(binders.get(x.id, []))
+    return seen
+
+
+def _rule_no_process_state(repo: Repo, R: Report) -> None:
+    from .c04_rest import process_state_cells
+
+    r = R.rule("C01-D12-no-process-state-on-the-node-path", "what a node resolves, checks and writes is a function of its processor class, its configuration and the payload: no function on the resolution / gate / observer / generated-processor path reads a module-level name or class attribute written at run time (memo, cache, counter, lazily filled class attribute), unless it is a table looked up only by the identity of the objects its entries were computed from", 10)
+    roots: List[Tuple[object, ast.AST]] = []
+    for rel in _NODE_PATH_FILES:
+        m = repo.module(rel)
+        roots += [(m, f) for f in ast.walk(m.tree) if isinstance(f, FuncNode)]
+    roots.append((repo.module(PARAMRES), repo.func(PARAMRES, "resolve_runtime_value")))
+    roots.append((repo.module(COMPONENT), repo.func(COMPONENT, "_SemantivaComponent.get_metadata")))
+    clo = repo.call_graph_closure(roots, stop=lambda m, n: m.rel.startswith(_STATE_EXEMPT))
+    todo: Dict[int, Tuple[object, ast.AST]] = {}
+    for m, f, _path in clo.values():
+        if m.rel.startswith(_STATE_EXEMPT) or not isinstance(f, FuncNode):
+            continue
+        for sub in ast.walk(f):
+            if isinstance(sub, FuncNode):
+                todo.setdefault(id(sub), (m, sub))
+
+    def cells_of(mod):
+        return process_state_cells(repo, mod)
+
+    def memo_defect(mod, key: Tuple[str, ...]) -> Optional[str]:
+        """None when every use of the cell anywhere in its module is a lookup / store / eviction keyed by the identity
+        of parameters and every stored value is computed from those parameters only; else what is wrong."""
+        cached = getattr(mod, "_c01_memo", None)
+        if cached is None:
+            cached = mod._c01_memo = {}  # type: ignore[attr-defined]
+        if key in cached:
+            return cached[key]
+        why: Optional[str] = None
+        n_lookups = 0
+        for f in [x for x in ast.walk(mod.tree) if isinstance(x, FuncNode)]:
+            occ = [o for o in _cell_occurrences(repo, mod, f, cells_of) if o[1] == key and o[4] is mod]
+            if not occ or why:
+                continue
+            g = CFG(f, may_raise=_no_raise)
+            for n, _k, label, _w, _o in occ:
+                kind, k, v = _cell_access(n)
+                if kind == "evict":
+                    continue
+                if kind in ("read", "rebind") or k is None:
+                    why = f"`{norm(stmt_of(n))[:70]}` in {qualname_of(f)} uses it as a whole (not an entry looked up by a key)"
+                    break
+                use = _node_of(g, n)
+                ident = _identity_key(g, k, use) if use is not None else None
+                if ident is None:
+                    kv = _val(g, k, use)[0] if use is not None else k
+                    why = f"its entries are keyed by `{ast.unparse(kv)[:70]}` ({qualname_of(f)}), which is derived from the object and not the object itself: two different objects (e.g. two generated classes with the same __qualname__ / __name__) share one entry, the first one looked up decides what the later one gets"
+                    break
+                n_lookups += kind == "lookup"
+                if v is not None:
+                    inputs = _value_inputs(f, stmt_of(n), v)
+                    local = _scope_locals(f)
+                    other_state = sorted(x for x in inputs if x not in local and ("name", x) in cells_of(mod) and ("name", x) != key)
+                    extra = sorted((inputs & _fn_params(f)) - ident)
+                    if extra or other_state:
+                        why = f"the entry stored by `{norm(stmt_of(n))[:60]}` in {qualname_of(f)} under {sorted(ident)} also depends on {extra + other_state}: a later lookup with the same key and another {'/'.join(extra + other_state)} gets the earlier value"
+                        break
+        cached[key] = why
+        return why
+
+    per_file: Dict[str, List[int]] = {}
+    for m, f in sorted(todo.values(), key=lambda t: (t[0].rel, getattr(t[1], "lineno", 0))):
+        cnt = per_file.setdefault(m.rel, [0, 0])
+        cnt[0] += 1
+        reported: Set[str] = set()
+        for n, key, label, (site, writer), origin in _cell_occurrences(repo, m, f, cells_of):
+            kind, _k, _v = _cell_access(n)
+            if kind in ("write", "evict", "rebind") or label in reported:
+                continue
+            why = memo_defect(origin, key)
+            if why is None:
+                continue
+            reported.add(label)
+            cnt[1] += 1
+            R.violation(r, m.rel, qualname_of(f), norm(stmt_of(n))[:110], f"`{label}` is process-lifetime mutable state (written by `{norm(site)[:70]}` in {writer}) and is read on the path that decides what a node computes; {why}. What was resolved / run earlier in the process (another node, an earlier or failed run) then decides this node's parameters, checks or writes, so the run no longer equals the documented semantics applied to its own configuration and payload", getattr(n, "lineno", 0))
+    for rel, (nf, nbad) in sorted(per_file.items()):
+        if not nbad:
+            R.ok(r, rel, f"{nf} function(s)", "no process-lifetime state read on the node path", "", 0)
